@@ -15,11 +15,11 @@ pub struct Scenario {
   /// subset of sats, runes, addresses, transactions, noinscriptions
   #[serde(default)]
   pub flags: Vec<String>,
-  #[serde(default)]
+  #[serde(default, skip_serializing_if = "Option::is_none")]
   pub commit_interval: Option<usize>,
-  #[serde(default)]
+  #[serde(default, skip_serializing_if = "Option::is_none")]
   pub savepoint_interval: Option<usize>,
-  #[serde(default)]
+  #[serde(default, skip_serializing_if = "Option::is_none")]
   pub max_savepoints: Option<usize>,
   pub steps: Vec<Step>,
 }
@@ -65,13 +65,13 @@ pub struct TxSpec {
   pub outs: Vec<OutSpec>,
   #[serde(default)]
   pub envs: Vec<EnvSpec>,
-  #[serde(default)]
+  #[serde(default, skip_serializing_if = "Option::is_none")]
   pub stone: Option<StoneSpec>,
   /// inputs whose witness tapscript pushes the commitment of a rune name
   #[serde(default)]
   pub commits: Vec<CommitSpec>,
   /// junk decoration class (C16), opaque to the ledger semantics
-  #[serde(default)]
+  #[serde(default, skip_serializing_if = "Option::is_none")]
   pub junk: Option<String>,
 }
 
@@ -97,7 +97,7 @@ pub struct EnvSpec {
   pub label: String,
   pub input: usize,
   /// pointer in units
-  #[serde(default)]
+  #[serde(default, skip_serializing_if = "Option::is_none")]
   pub pointer: Option<u64>,
   #[serde(default)]
   pub even: bool,
@@ -112,7 +112,7 @@ pub struct EnvSpec {
   /// labels of purported parents; a label that names no inscription yields a random id
   #[serde(default)]
   pub parents: Vec<String>,
-  #[serde(default)]
+  #[serde(default, skip_serializing_if = "Option::is_none")]
   pub delegate: Option<String>,
   /// text/plain (hidden from collections) instead of image/png
   #[serde(default)]
@@ -127,28 +127,28 @@ pub struct CommitSpec {
 
 #[derive(Clone, Debug, Default, Serialize, Deserialize)]
 pub struct TermsSpec {
-  #[serde(default)]
+  #[serde(default, skip_serializing_if = "Option::is_none")]
   pub cap: Option<u64>,
-  #[serde(default)]
+  #[serde(default, skip_serializing_if = "Option::is_none")]
   pub amount: Option<u64>,
-  #[serde(default)]
+  #[serde(default, skip_serializing_if = "Option::is_none")]
   pub hs: Option<u64>,
-  #[serde(default)]
+  #[serde(default, skip_serializing_if = "Option::is_none")]
   pub he: Option<u64>,
-  #[serde(default)]
+  #[serde(default, skip_serializing_if = "Option::is_none")]
   pub os: Option<u64>,
-  #[serde(default)]
+  #[serde(default, skip_serializing_if = "Option::is_none")]
   pub oe: Option<u64>,
 }
 
 #[derive(Clone, Debug, Default, Serialize, Deserialize)]
 pub struct EtchSpec {
   /// rune name; None = unnamed (reserved allocation)
-  #[serde(default)]
+  #[serde(default, skip_serializing_if = "Option::is_none")]
   pub name: Option<String>,
-  #[serde(default)]
+  #[serde(default, skip_serializing_if = "Option::is_none")]
   pub premine: Option<u64>,
-  #[serde(default)]
+  #[serde(default, skip_serializing_if = "Option::is_none")]
   pub terms: Option<TermsSpec>,
 }
 
@@ -164,18 +164,15 @@ pub struct EdictSpec {
 pub struct StoneSpec {
   #[serde(default)]
   pub edicts: Vec<EdictSpec>,
-  #[serde(default)]
+  #[serde(default, skip_serializing_if = "Option::is_none")]
   pub etching: Option<EtchSpec>,
   /// label of the etching transaction of the rune to mint
-  #[serde(default)]
+  #[serde(default, skip_serializing_if = "Option::is_none")]
   pub mint: Option<String>,
-  #[serde(default)]
+  #[serde(default, skip_serializing_if = "Option::is_none")]
   pub pointer: Option<u32>,
   /// None = well-formed runestone; otherwise a flaw class that makes it a cenotaph:
   /// evenTag | flag | trailing | truncated | edictOutput | edictRuneId | opcode | varint | supply
-  #[serde(default)]
+  #[serde(default, skip_serializing_if = "Option::is_none")]
   pub flaw: Option<String>,
-  /// output position of the OP_RETURN carrying the stone (an `opret` entry of `outs`)
-  #[serde(default)]
-  pub at: usize,
 }
